@@ -62,4 +62,27 @@ def Loop.specSetCategory (l : Loop) (cat : Option Str) : Except Code Loop :=
   else if cat == some [] then .error CIF_RESERVED_LOOP
   else .ok { l with category := cat }
 
+
+/-- cif_get_block: the block whose code matches (normalised), or CIF_NOSUCH_BLOCK -/
+def specGetBlock (cif : Cif) (key : Str) : Except Code Container :=
+  match cif.find? (fun c => norm c.code == key) with
+  | some c => .ok c
+  | none => .error CIF_NOSUCH_BLOCK
+
+/-- cif_create_block: a new, empty block under the spelling given, unless the code is invalid or (normalised) already in use -/
+def specCreateBlock (cif : Cif) (key orig : Str) (valid : Bool) : Except Code Cif :=
+  if !valid then .error CIF_INVALID_BLOCKCODE
+  else if cif.any (fun c => norm c.code == key) then .error CIF_DUP_BLOCKCODE
+  else .ok (cif ++ [.mk orig [] []])
+
+/-- cif_container_get_frame: the save frame of the container whose code matches (normalised); an invalid code is refused -/
+def Container.specGetFrame (c : Container) (key : Str) (valid : Bool) : Except Code Container :=
+  if !valid then .error CIF_INVALID_FRAMECODE
+  else match c.frames.find? (fun f => norm f.code == key) with
+    | some f => .ok f
+    | none => .error CIF_NOSUCH_FRAME
+
+/-- cif_get_all_blocks: the codes, in their original spelling -/
+def specBlockCodes (cif : Cif) : List Str := cif.map (·.code)
+
 end CifModel
